@@ -403,7 +403,7 @@ theorem init_inv (e : DutchV1.Env) (a : DutchV1.Auc) (b : Bank) (nf : Option Int
 end V1
 
 /-- **first generation: bidders pay ≤ target and receive ≤ the seized collateral**, for every sequence of bids (any bidders,
-any amounts incl. zero/negative/over-sized) and block hooks (price updates, restarts, any oracle path) -/
+any amounts incl. zero/negative/over-sized) and block hooks (price updates, restarts, emergency-shutdown wind-down, any oracle path) -/
 theorem v1_bidders_pay_le_target_and_receive_le_collateral (e : DutchV1.Env) (a : DutchV1.Auc) (b : Bank) (nf : Option Int)
     (hs : V1.Start e a) (ops : List DutchV1.Op) :
     let s := DutchV1.run e (DutchV1.initSt e a b nf) ops
@@ -460,6 +460,23 @@ theorem v1_bid_moves_and_close_distributes (e : DutchV1.Env) (s s' : DutchV1.St)
       refine ⟨by rw [m3, m1]; omega, by rw [m4, m2]; omega, by rw [m1]; have := hpo.in_nonneg; omega,
         by rw [m2]; have := hpo.slice_nonneg; omega, m5, m6⟩
     · cases h
+
+/-- **first generation, emergency-shutdown wind-down** (`dutch.go:515-637`): when the block hook finds the window over and the app's
+ESM on, the auction is closed and NOTHING of it stays in auction custody: the unsold collateral leaves to the vault module (if less
+than the principal was collected: the vault is re-created / topped up) or to the ESM module (otherwise), everything collected is
+burned except the excess over the principal, which is the penalty for the collector. -/
+theorem v1_esm_winddown_empties_custody (e : DutchV1.Env) (s s' : DutchV1.St) (a : DutchV1.Auc) (snapshot : Bool)
+    (hpr : 0 ≤ e.principal) (hi : DutchV1.Inv e s) (ha : s.auc = some a) (h : DutchV1.windDown e s a snapshot = .ok s') :
+    s'.auc = none ∧ s'.bank.get .auction .coll = s'.otherC ∧ s'.bank.get .auction .debt = s'.otherD ∧
+    (s'.bank.get .vaultMod .coll - s.bank.get .vaultMod .coll) + (s'.bank.get .esm .coll - s.bank.get .esm .coll) = e.coll0 - s.recv ∧
+    (s'.burned - s.burned) + (s'.bank.get .collector .debt - s.bank.get .collector .debt) = s.paid ∧
+    (a.inCur < e.principal → s'.bank.get .vaultMod .coll = s.bank.get .vaultMod .coll + a.outCur ∧ s'.burned = s.burned + a.inCur) ∧
+    (e.principal ≤ a.inCur → s'.bank.get .esm .coll = s.bank.get .esm .coll + a.outCur ∧ s'.burned = s.burned + e.principal ∧
+        s'.bank.get .collector .debt = s.bank.get .collector .debt + (a.inCur - e.principal)) := by
+  obtain ⟨o1, o2, o3, o4, o5, o6⟩ := hi.open_ a ha
+  have hin0 : 0 ≤ a.inCur := by rw [← o1]; exact hi.paid_nonneg
+  obtain ⟨w1, _, _, w4, w5, w6, w7, w8, w9, w10, w11⟩ := DutchV1.windDown_ok hpr o4 hin0 h
+  exact ⟨w1, by rw [w6, w4]; omega, by rw [w7, w5]; omega, by rw [w8]; omega, by rw [w9]; omega, w10, w11⟩
 
 /-- **first generation: each bid at the posted price** (`recv ≤ (paid + 2)·p_debt·dec_c/(dec_d·p_coll) + 1`) -/
 theorem v1_bid_at_posted_price (e : DutchV1.Env) (a : DutchV1.Auc) (slice0 : Int) (p : DutchV1.Plan)
